@@ -358,7 +358,7 @@ Section Proofs.
   Theorem stream_deleted_inv g s e g' : inv g -> stream_deleted np g s e = GOk g' -> inv g'.
   Proof.
     intros Hinv H. pose proof Hinv as [Hnd Ho Hg]. unfold stream_deleted in H. destruct (e <? g_epoch g)%N; [discriminate|].
-    destruct (negb (existsb (subscribes s) (g_members g))); [injection H as <-; constructor; assumption|].
+    destruct (negb (existsb (subscribes s) (g_members g))); [injection H as <-; exact Hinv|].
     injection H as <-. fold (strip s). fold (not_s s).
     set (ms := map (strip s) (g_members g)).
     set (others := sort_n (dedup (concat (map (fun m => filter (fun x => negb (N.eqb x s)) (m_streams m)) (filter (subscribes s) (g_members g)))))).
